@@ -11,6 +11,7 @@ from vf.e1.sym import (Ref, SInt, SBool, SAtom, ATOMS, NONE_ID, is_sym, ITE, AND
                        LT, LE, GE, GT, ADD, SUB, MUL, MIN, MAX, B, I, Unsupported, mkbool, mkint,
                        atom_of, atom_concrete, lift, unwrap_atom, ite_chain)
 from vf.e1.heap import SList, CLASSES, FCE
+from vf.e1.vals import SText
 from vf.e1.vals import (Local, BoundMethod, RefMethod, SymMethod, SuperProxy, HeapSet, PinMap,
                         HeapData, SOpt, merge, truth, raw_bool, raw_int, raw_ref, present, seq_len,
                         compact, from_pylist, PyIter, to_atom)
@@ -290,6 +291,10 @@ def to_str(ctx, fr, v):
     if isinstance(v, SAtom):
         r, _ = lift(lambda x: str(x), v)
         return r
+    if isinstance(v, SText):
+        return v
+    if isinstance(v, SInt) and ctx.__dict__.get("text_ropes"):
+        return SText("leaf", v)
     if isinstance(v, SInt):
         # small non-negative integers (list positions): tabulated; anything else trips the bound
         cap = 8
@@ -344,6 +349,13 @@ def binop(ctx, fr, op, l, r):
             raise_if(ctx, fr, EQ(b, 0), "Other")
             return mkint(I(a) % I(b))
         raise Unsupported("int op %s" % t.__name__)
+    if t is ast.Mult and ctx.__dict__.get("text_ropes") and isinstance(l, str) and isinstance(r, SInt):
+        return SText("leaf", ("rep", l, r))        # indentation: a string repeated a symbolic number of times
+    if t is ast.Add and (isinstance(l, SText) or isinstance(r, SText) or ctx.__dict__.get("text_ropes")) and \
+            isinstance(l, (str, SAtom, SText)) and isinstance(r, (str, SAtom, SText)) and \
+            not (isinstance(l, str) and isinstance(r, str)):
+        # rope mode: text built from symbolic parts is kept as a rope instead of being tabulated
+        return SText.cat(l, r)
     if isinstance(l, (str, SAtom)) and isinstance(r, (str, SAtom)) and t is ast.Add:
         v, exc = lift(lambda x, y: x + y, l, r)
         raise_if(ctx, fr, exc, "TypeError")
@@ -398,7 +410,7 @@ def binop(ctx, fr, op, l, r):
 def aug_binop(ctx, fr, op, cur, v):
     if isinstance(cur, SList) and isinstance(op, ast.Add):
         seq_extend(ctx, fr, cur, as_slist(ctx, fr, v))
-        return INPLACE if cur.home is not None else cur
+        return INPLACE if (cur.home is not None and cur.home[0] != "sdict") else cur
     if isinstance(cur, Local) and isinstance(op, ast.Add):
         f, owner = I_.mro_lookup(cur.cls, "__iadd__")
         if f is not None:
@@ -510,7 +522,15 @@ def seq_get(ctx, fr, sl, i):
 def commit(ctx, fr, sl, new):
     """in-place update of list object `sl` with the contents of `new` under the live guard"""
     g = live(ctx, fr)
-    if sl.home is not None:
+    if sl.home is not None and sl.home[0] == "sdict":
+        _, d_, rows, _ = sl.home
+        for tok, cond in rows:
+            hit = AND(g, cond)
+            if hit is False:
+                continue
+            pr, old = d_.e[tok]
+            d_.e[tok] = [pr, merge(hit, compact(new).copy(), old)]
+    elif sl.home is not None:
         kind, c, field, t = sl.home
         over = ctx.h.write_list(g, c, field, t, new)
         bound_if(ctx, fr, over, "list capacity exceeded in %s.%s" % (c, field))
@@ -538,7 +558,7 @@ def seq_insert(ctx, fr, sl, pos, x):
     d = compact(sl)
     n = d.len
     cap = d.cap
-    if sl.home is None:
+    if sl.home is None or sl.home[0] == "sdict":
         cap = cap + 1 if (is_sym(n) or n >= cap) and cap < ctx.u.K * 3 else cap
     bound_if(ctx, fr, GE(n, cap), "list capacity %d exceeded by insert" % cap)
     p = raw_int(pos)
@@ -593,7 +613,7 @@ def seq_concat(ctx, fr, a, b):
 
 def seq_extend(ctx, fr, sl, other):
     new = seq_concat(ctx, fr, sl, other)
-    if sl.home is not None:
+    if sl.home is not None and sl.home[0] != "sdict":
         cap = ctx.u.cap(sl.home[1], sl.home[2])
         bound_if(ctx, fr, GT(new.len, cap), "list capacity exceeded by extend")
     commit(ctx, fr, sl, new)
@@ -1227,7 +1247,14 @@ def getitem(ctx, fr, obj, key):
         return data_get(ctx, fr, obj, key)
     if isinstance(obj, SDict):
         raise_if(ctx, fr, NOT(sdict_has(ctx, fr, obj, key)), "KeyError")
-        return sdict_get_raw(ctx, fr, obj, key, None)
+        v = sdict_get_raw(ctx, fr, obj, key, None)
+        rows = [(tok, AND(cond, obj.e[tok][0])) for tok, cond in _matches(ctx, fr, obj, key) if tok in obj.e]
+        rows = [(tok, c) for tok, c in rows if c is not False]
+        if isinstance(v, SList) and rows and not (len(rows) == 1 and v is obj.e[rows[0][0]][1]):
+            # d[key] is a list object held by the dict: in-place mutations of the (merged) handle are written
+            # back to every entry the symbolic key may denote (python reference semantics)
+            v = SList(v.len, v.el, ("sdict", obj, rows, None), v.is_set, v.mask)
+        return v
     if isinstance(obj, Local):
         f, owner = I_.mro_lookup(obj.cls, "__getitem__")
         if f is None:
